@@ -921,6 +921,8 @@ class Ctx:
 
     def _match_div_const(self, at, b):
         """a == A*b + k with a numeral 0 <= k < b  =>  (A, k)   (syntactic, exact)"""
+        if z3.is_app(at) and at.decl().kind() == z3.Z3_OP_SUB:
+            at = z3.simplify(at)
         if z3.is_mul(at):
             args = [at]
             k = 0
